@@ -408,6 +408,18 @@ def _is_sum_of_squares(expr):
     return True
 
 
+def _is_real(expr):
+    for t in expr.terms:
+        for a, _ in t.facs:
+            if a[0] == "E" and a[1] not in REAL_INPUTS:
+                return False
+            if a[0] == "P" and not _is_real(a[1]):
+                return False
+            if a[0] == "F" and a[1] not in ("abs", "sign") and not all(_is_real(x) for x in a[2]):
+                return False
+    return True
+
+
 def simplify_term(t):
     """Returns a list of Terms equal to t with: integer powers of P/abs expanded, deltas contracted,
     indicators absorbed, unused bound variables turned into size factors."""
@@ -448,6 +460,24 @@ def simplify_term(t):
                 sq = arg * rename_apart(arg.conj())
                 prod = Expr([rest]) * sq.power(e / 2)
                 return [s for u in prod.terms for s in simplify_term(u)]
+        if a[0] == "F" and a[1] == "sign" and e.denominator == 1 and e >= 2 and RULES["sign_sq_one"]:
+            # side condition: the argument is non-zero, so sign(x)^2 = 1
+            rest = Term(t.coef, t.bound, facs[:i] + facs[i + 1:] + ([(a, e % 2)] if e % 2 else []))
+            return simplify_term(rest)
+        if a[0] == "F" and a[1] == "sign" and e.denominator == 1 and e >= 1:
+            # sign(x) * abs(x) = x for real x
+            ab = ("F", "abs", a[2])
+            d = dict(facs)
+            if ab in d and d[ab].denominator == 1 and d[ab] >= 1 and _is_real(a[2][0]):
+                k = min(e, d[ab])
+                newf = [(x, y) for x, y in facs if x not in (a, ab)]
+                if e - k:
+                    newf.append((a, e - k))
+                if d[ab] - k:
+                    newf.append((ab, d[ab] - k))
+                rest = Term(t.coef, t.bound, newf)
+                prod = Expr([rest]) * rename_apart(a[2][0]).power(k)
+                return [s2 for u in prod.terms for s2 in simplify_term(u)]
         if a[0] == "F" and a[1] == "sign" and e.denominator == 1 and e > 1:
             # sign(x)^2 is 1 only for x != 0: keep sign^2 as a distinct atom power (0 or 1), reduce higher powers
             ne = 2 - (e % 2) if e > 2 else e
@@ -624,6 +654,8 @@ def atom_key_masked(a, ren):
 
 MAX_PERMS = 40320
 MAX_EXPAND = 8
+# rewriting rules that hold only under a side condition of the obligation (set/cleared by the obligation runner)
+RULES = {"sign_sq_one": False}
 
 
 def term_key(t, ren, depth, want_ren=False):
